@@ -20,7 +20,7 @@ import (
 	"verifextract/ex"
 )
 
-func main() { ex.Main([]string{"ParserTable.lean", "ParserActs.lean"}, gen) }
+func main() { ex.Main([]string{"ParserTable.lean", "ParserActs.lean", "ParserReader.lean"}, gen) }
 
 var stateNames = map[string]bool{
 	"ground": true, "escape": true, "escapeIntermediate": true, "csiEntry": true, "csiParam": true,
@@ -327,6 +327,7 @@ func gen(c *ex.Ctx) {
 		return
 	}
 	genActs(c, f) // Gen/ParserActs.lean: written first and unconditionally (it degrades, never fails)
+	genReader(c, f) // Gen/ParserReader.lean: readRune and print as statement skeletons (degrades, never fails)
 	g := &gctx{c: c}
 	var sb strings.Builder
 	sb.WriteString("import VaxisModel.Model.ParserTable\n\nnamespace VaxisModel.Gen.ParserTable\nopen VaxisModel.Model.ParserTable\n\n")
@@ -1027,4 +1028,98 @@ func genActs(c *ex.Ctx, f *ast.File) {
 	}
 	sb.WriteString("]\n\nend VaxisModel.Gen.ParserActs\n")
 	c.Write("ParserActs.lean", sb.String())
+}
+
+// Gen/ParserReader.lean: the statement skeletons of the reading side — Parser.readRune (ReadRune,
+// stop the timer, raw-byte fallback, error ⇒ eof) and Parser.print (builder, look-ahead loop over
+// what is buffered, UnreadRune when the cluster is complete, width, emit) — in the vocabulary of
+// Model/ParserReaderSk.lean.  A statement that is not recognised becomes `.unknown "<source>"` and is
+// listed in `unrecognised`; nothing here fails the extractor.
+func genReader(c *ex.Ctx, f *ast.File) {
+	var unrec []string
+	unknown := func(fn string, n ast.Node) string {
+		src := norm(c.Src(n))
+		unrec = append(unrec, fn+": "+src)
+		return "(.unknown " + ex.LeanStr(src) + ")"
+	}
+	simple := func(fn string, table map[string]string, list []ast.Stmt) []string {
+		var out []string
+		for _, st := range list {
+			if t, ok := table[norm(c.Src(st))]; ok {
+				out = append(out, t)
+			} else {
+				out = append(out, unknown(fn, st))
+			}
+		}
+		return out
+	}
+	body := func(name string) []ast.Stmt {
+		fd := ex.FindFunc(f, "Parser", name)
+		if fd == nil || fd.Body == nil {
+			unrec = append(unrec, name+": method not found")
+			return nil
+		}
+		return fd.Body.List
+	}
+	fb := "err = p.r.UnreadRune() if err != nil { return eof } b, err := p.r.ReadByte() if err != nil { return eof } r = rune(b)"
+	readTable := map[string]string{
+		"r, size, err := p.r.ReadRune()":                 ".readRune",
+		"if p.escTimeout != nil { p.escTimeout.Stop() }": ".stopTimer",
+		"if r == unicode.ReplacementChar && size == 1 { " + fb + " }": "(.fallback true)",
+		"if r == unicode.ReplacementChar { " + fb + " }":              "(.fallback false)",
+		"if err != nil { return eof }":                                ".retEofOnErr",
+		"return r":                                                    ".retRune",
+	}
+	loopTable := map[string]string{
+		"nextRune, _, _ := p.r.ReadRune()": ".peekRune",
+		"bldr.WriteRune(nextRune)":         ".writeNext",
+		"grapheme, rest, w, _ = uniseg.FirstGraphemeClusterInString(bldr.String(), -1)": ".firstCluster",
+		"if rest != \"\" { p.r.UnreadRune() break }":                                    ".ifRestUnreadBreak",
+	}
+	printTable := map[string]string{
+		"bldr := strings.Builder{}":                        ".newBuilder",
+		"bldr.WriteRune(r)":                                ".writeFirst",
+		"var ( rest string grapheme = bldr.String() w int )": ".declLocals",
+		"if w == 0 { w = uniseg.StringWidth(grapheme) }":   ".measureIfZero",
+		"p.emit(Print{Grapheme: grapheme, Width: w})":      ".emitPrint",
+	}
+	var sb strings.Builder
+	sb.WriteString("import VaxisModel.Model.ParserReaderSk\n\nnamespace VaxisModel.Gen.ParserReader\nopen VaxisModel.Model.ParserReaderSk\n\n")
+	rd := simple("readRune", readTable, body("readRune"))
+	fmt.Fprintf(&sb, "/-- body of `func (p *Parser) readRune() rune` -/\ndef readRuneBody : List RStmt :=\n  [%s]\n\n", strings.Join(rd, ",\n   "))
+	var pr []string
+	for _, st := range body("print") {
+		if fs, ok := st.(*ast.ForStmt); ok && fs.Init == nil && fs.Post == nil && fs.Cond != nil &&
+			norm(c.Src(fs.Cond)) == "p.r.Buffered() > 0" {
+			pr = append(pr, ".whileBuffered")
+			pr = append(pr, simple("print", loopTable, fs.Body.List)...)
+			pr = append(pr, ".endWhile")
+			continue
+		}
+		src := norm(c.Src(st))
+		if ds, ok := st.(*ast.DeclStmt); ok {
+			if gd, ok := ds.Decl.(*ast.GenDecl); ok {
+				cp := *gd
+				cp.Doc = nil // a comment above the declaration is not part of it
+				src = norm(c.Src(&cp))
+			}
+		}
+		if t, ok := printTable[src]; ok {
+			pr = append(pr, t)
+		} else {
+			pr = append(pr, unknown("print", st))
+		}
+	}
+	fmt.Fprintf(&sb, "/-- body of `func (p *Parser) print(r rune)` -/\ndef printBody : List RStmt :=\n  [%s]\n\n", strings.Join(pr, ",\n   "))
+	em := simple("emit", map[string]string{"p.sequences <- seq": ".sendSeq"}, body("emit"))
+	fmt.Fprintf(&sb, "/-- body of `func (p *Parser) emit(seq Sequence)` -/\ndef emitBody : List RStmt :=\n  [%s]\n\n", strings.Join(em, ",\n   "))
+	sb.WriteString("/-- statements of readRune / print / emit that the extractor does not know -/\ndef unrecognised : List String := [")
+	for i, u := range unrec {
+		if i > 0 {
+			sb.WriteString(",\n  ")
+		}
+		sb.WriteString(ex.LeanStr(u))
+	}
+	sb.WriteString("]\n\nend VaxisModel.Gen.ParserReader\n")
+	c.Write("ParserReader.lean", sb.String())
 }
